@@ -3,7 +3,10 @@
 // mock <boost/mpi.hpp> of /verif/harness/mockmpi.  Ranks are threads; a seeded scheduler picks, at
 // every request::test(), the rank that moves and whether an in-flight message is visible.
 //
-// usage: disp <P> <seed> <maxSteps> <seeNum> <seeDen>     rounds on stdin: one line of job complexities per round
+// usage: disp <P> <seed> <maxSteps> <seeNum> <seeDen> [nomaster]    rounds on stdin: one line of job complexities per round
+//   nomaster: the dedicated-master pattern (test/mpi_dispatcher_test_nomaster.cpp): rank 0 only drives
+//   `for (; !master.is_finished();) { master.order(); master.check_workers(); }` with include_boss=false, the other
+//   ranks run the worker loop; a round's line is then the job list (distinct job ids) handed to MPIMaster.
 // output: event log in total order:
 //   round <k> <J> c0 c1 ...      s <src> <dst> <tag> <payload>      t <rank> <seen>      r <rank> <job>
 //   x <rank> <round>  (rank left mpi_skel::run)      m <rank> <round> <n> j w j w ...  (returned map)
@@ -28,6 +31,44 @@ struct Job {
 };
 
 static std::vector<std::vector<int> > rounds;
+static bool nomaster = false;
+
+// one round of the dedicated-master pattern
+static void dedicatedRound(boost::mpi::communicator& comm, int rank, size_t k) {
+    comm.barrier();
+    if (rank == 0) {
+        {
+            std::unique_lock<std::mutex> lk(W->mu);
+            std::ostringstream os; os << "round " << k << " " << rounds[k].size();
+            for (size_t j = 0; j < rounds[k].size(); ++j) os << " " << rounds[k][j];
+            W->log.push_back(os.str());
+        }
+        std::vector<pMPI::JobId> jobs(rounds[k].begin(), rounds[k].end());
+        pMPI::MPIMaster master(comm, jobs, false);
+        for (; !master.is_finished();) {
+            master.order();
+            master.check_workers();
+        }
+        std::unique_lock<std::mutex> lk(W->mu);
+        std::ostringstream os; os << "m 0 " << k << " " << master.DispatchMap.size();
+        for (std::map<pMPI::JobId, pMPI::WorkerId>::const_iterator it = master.DispatchMap.begin(); it != master.DispatchMap.end(); ++it)
+            os << " " << it->first << " " << it->second;
+        W->log.push_back(os.str());
+    } else {
+        pMPI::MPIWorker worker(comm, 0);
+        for (; !worker.is_finished();) {
+            worker.receive_order();
+            if (worker.is_working()) {
+                Job(1, int(worker.current_job())).run();
+                worker.report_job_done();
+            }
+        }
+        std::unique_lock<std::mutex> lk(W->mu);
+        std::ostringstream os; os << "x " << rank << " " << k;
+        W->log.push_back(os.str());
+    }
+    comm.barrier();
+}
 
 static void rankMain(int rank) {
     myRank = rank;
@@ -41,6 +82,7 @@ static void rankMain(int rank) {
         boost::mpi::communicator comm;
         for (size_t k = 0; k < rounds.size(); ++k) {
             if (W->hang) throw thread_abort();
+            if (nomaster) { dedicatedRound(comm, rank, k); continue; }
             pMPI::mpi_skel<Job> skel;
             for (size_t j = 0; j < rounds[k].size(); ++j) skel.parts.push_back(Job(rounds[k][j], int(j)));
             if (rank == 0) {
@@ -68,6 +110,7 @@ static void rankMain(int rank) {
 int main(int argc, char** argv) {
     if (argc < 6) { std::fprintf(stderr, "usage: disp P seed maxSteps seeNum seeDen\n"); return 2; }
     int P = std::atoi(argv[1]);
+    nomaster = argc > 6 && std::string(argv[6]) == "nomaster";
     unsigned long long seed = std::strtoull(argv[2], 0, 10);
     long maxSteps = std::atol(argv[3]);
     std::string line;
